@@ -51,6 +51,15 @@ func ifByIndex(idx int) net.Interface {
 	return net.Interface{}
 }
 
+// ifIdxs: every host interface (they differ in MTU, flags and hardware address).
+var ifIdxs = func() []int {
+	var out []int
+	for _, i := range srv.Ifaces() {
+		out = append(out, i.Index)
+	}
+	return out
+}()
+
 var realIdx = func() int {
 	for _, i := range srv.Ifaces() {
 		if i.Flags&net.FlagLoopback == 0 {
@@ -103,6 +112,11 @@ func eval(r *ev.Run, c Case) {
 		return
 	}
 	if n == 0 {
+		// "A request relayed through n Relay-Forward layers is answered ...": with chains that
+		// never drop, a well-formed relayed request of a supported type must get its reply
+		if perr == nil && req.Msg != nil && len(req.Layers) > 0 && allFwd && supported[mtype] && ncid == 1 {
+			r.Violate("C12/relayed-request-unanswered", fmt.Sprintf("relayed %s (%d Relay-Forward layers, datagram of %d octets) got no reply under a chain that drops nothing", tclass(mtype, perr), len(req.Layers), len(dgram)), c)
+		}
 		return
 	}
 	switch {
@@ -247,7 +261,7 @@ func run(r *ev.Run) {
 	if !r.Quick() {
 		maxDepth = 4
 	}
-	r.Rule(fmt.Sprintf("E3 complete product through the real HandleMsg6: message type byte 0..255 x client-id{absent,present} x rapid-commit x relay depth 0..%d x 9 per-layer variants (link/peer from {::,global,link-local}, {no option, Interface-ID, Interface-ID+Remote-ID}, distinct per layer) x peer{global, fe80::99, fe80:0:0:1::1, febf:ffff::1 (all link-local, fe80::/10), fec0::1 (not link-local)} x listener{bound,unbound} x control message{nil,ifindex} x chain{empty, option-adding handler}; plus Relay-Reply as outer type, mixed nesting, relay without inner message, every truncation of 2 seeds. Oracle on raw bytes with an independent parser. Class = chain/depth/type/cid/rapid/#replies/reply type.", maxDepth))
+	r.Rule(fmt.Sprintf("E3 complete product through the real HandleMsg6: message type byte 0..255 x client-id{absent,present} x rapid-commit x relay depth 0..%d x 9 per-layer variants (link/peer from {::,global,link-local}, {no option, Interface-ID, Interface-ID+Remote-ID}, distinct per layer) x peer{global, fe80::99, fe80:0:0:1::1, febf:ffff::1 (all link-local, fe80::/10), fec0::1 (not link-local)} x listener{bound,unbound} x control message{nil,ifindex} x chain{empty, option-adding handler}; plus replies of 1.2-20 KiB (long Interface-ID / client identifier) on listeners bound to every host interface, Relay-Reply as outer type, mixed nesting, relay without inner message, every truncation of 2 seeds. Oracle on raw bytes with an independent parser. Class = chain/depth/type/cid/rapid/#replies/reply type.", maxDepth))
 	r.Assume("reply captured at WriteTo (no socket); mixed Relay-Forward/Relay-Reply nesting and requests without client-id are enumerated but only checked for 'no reply to unsupported types'")
 	// link-local unicast is fe80::/10: also sources with bits set between /10 and /64
 	// source ports: client port, server/relay port, an ephemeral one, the extremes
@@ -291,6 +305,36 @@ func run(r *ev.Run) {
 		}()
 	}
 	wg.Wait()
+	// sizes: replies far larger than any interface MTU are still replies (an Interface-ID or a
+	// client identifier of any length is mirrored), whatever the listener is bound to
+	for _, t := range []byte{1, 3, 11} {
+		for _, n := range []int{1200, 1393, 1500, 4000, 20000} {
+			big := bytes.Repeat([]byte{'i'}, n)
+			for depth := 0; depth <= 2; depth++ {
+				m := pkt.Msg6{Type: t, Xid: [3]byte{0xab, 0xce, t}}
+				cid := []byte{0, 2, 0, 0, 0x9, 0xbf, 1, 2, 3, 4}
+				if depth == 0 {
+					cid = append([]byte{0, 2, 0, 0, 0x9, 0xbf}, big...)
+				}
+				m.Opts = []pkt.Opt6{{Code: 1, Data: cid}, {Code: 8, Data: []byte{0, 0}}}
+				b := m.Bytes()
+				for i := depth - 1; i >= 0; i-- {
+					l := pkt.Relay6{Type: 12, Hop: byte(i), Link: addrs[1], Peer: addrs[2], Inner: b}
+					if i == depth-1 {
+						l.Opts = []pkt.Opt6{{Code: 18, Data: big}}
+					}
+					b = l.Bytes()
+				}
+				if len(b) > 65000 {
+					continue
+				}
+				for _, bound := range append([]int{0}, ifIdxs...) {
+					eval(r, Case{"empty", hex.EncodeToString(b), peers[0], bound, realIdx})
+					eval(r, Case{"tagger", hex.EncodeToString(b), peers[1], bound, bound})
+				}
+			}
+		}
+	}
 	// relay-forward without a relay message option; nested relay whose inner is empty
 	for depth := 1; depth <= 2; depth++ {
 		var inner []byte
